@@ -8,7 +8,7 @@ use hifitime::{Epoch, TimeScale};
 use proptest::prelude::*;
 use serde::{Deserialize, Serialize};
 
-pub const RULE: &str = "exhaustive enumeration of every calendar day of years 0001-9999 x times of day {first ns, last ns, one derived from a hash of the day} x scales (quick: one scale and one time-of-day class per day, both rotating with the day number; thorough: all nine scales x all three classes on every day), sampled years to +-30 000, plus generated instants with time-of-day classes (first/last us, uniform); the epoch is built from the MODEL count (from_duration), rendered by the library and compared with the model's rendering of civil-from-days; non-trivial = time of day within 1 us of midnight, year outside 1900-2100, negative count, or a day adjacent to a leap day / year boundary; distinct = distinct case tuples (hash set, capped per shard: lower bound)";
+pub const RULE: &str = "exhaustive enumeration of every calendar day of years 0001-9999 x times of day {first ns, last ns, one derived from a hash of the day} x scales (quick: one scale and one time-of-day class per day, both rotating with the day number; thorough: all nine scales x all three classes on every day), sampled years to +-30 000, plus generated instants with time-of-day classes (first/last us, uniform); the epoch is built from the MODEL count (from_duration), rendered by the library and compared with the model's rendering of civil-from-days; non-trivial = time of day within 1 us of midnight, year outside 1900-2100, negative count, or a day adjacent to a leap day / year boundary; distinct = distinct case tuples (hash set, capped per shard: lower bound); calendar walks (c09.chain): non-trivial = at least three jumps and a 29 February, a jump of whole years, or a state before the scale's reference epoch";
 
 pub const ASSUMPTIONS: &[&str] = &[
     "the epoch under test is built with Epoch::from_duration from the model's count, so C09 does not depend on C08's constructor (which is only used for the feed-back identity)",
